@@ -292,6 +292,62 @@ func runC05(c *run.Ctx) {
 	}
 	c.MinNontriv = pairs / 2
 	c.Set("type_value_pairs", pairs)
+	// the same conversion far down: "within the resolve depth limit" is the limit in force when the request is resolved, so an
+	// application that raises ggql.MaxResolveDepth after its root exists still gets converted values below the old limit
+	defer func() { ggql.MaxResolveDepth = 100 }()
+	for bi, bk := range []string{"iface", "any", "reflect"} {
+		for k := 0; k < c.N(12, 60); k++ {
+			r := c.Rand(900000 + bi*1000 + k)
+			ti, wi := r.Intn(len(c05Types)), r.Intn(2)
+			fname := fmt.Sprintf("f%d_%d", ti, wi)
+			cv := cat[r.Intn(len(cat))]
+			if _, isL := ref.AsList(cv.v); isL && bk != "iface" {
+				continue
+			}
+			ggql.MaxResolveDepth = 100
+			g := &model.Graph{}
+			root := &model.Node{ID: 0, Type: "__root", F: map[string]interface{}{}}
+			q := &model.Node{ID: 1, Type: "Query", F: map[string]interface{}{fname: cv.v}}
+			q.F["obj"] = q
+			root.F["query"] = q
+			g.Root = root
+			g.Nodes = []*model.Node{root, q}
+			h, err := back.Build(bk, s, sdl, g)
+			if err != nil {
+				c.Violation("c05-schema-rejected", map[string]interface{}{"error": err.Error(), "sdl": sdl})
+				return
+			}
+			depth := 60 + r.Intn(30)
+			if k%2 == 0 {
+				depth = 105 + r.Intn(60)
+				ggql.MaxResolveDepth = 300
+			}
+			sels := []model.Sel{&model.Field{Name: fname}}
+			for d := 0; d < depth; d++ {
+				sels = []model.Sel{&model.Field{Name: "obj", Sels: sels}}
+			}
+			doc := &model.Doc{Ops: []*model.Op{{Kind: "query", Shorthand: true, Sels: sels}}}
+			text := doc.Print(model.LayoutN(0))
+			out := Do(h, Request{Text: text}, nil)
+			exp := ref.Execute(s, doc, "", nil, g, nil, ref.Flags{})
+			c.Eval(fmt.Sprintf("deep|%s|%s|%s|%d", fname, cv.name, bk, depth), true)
+			c.Count("deep_chain_conversions", 1)
+			if k%2 == 0 {
+				c.Count("deep_chain_conversions_beyond_default_limit", 1)
+			}
+			diff := Compare(exp, out, CompareOpts{})
+			if diff != "" && flags != (ref.Flags{}) {
+				if Compare(ref.Execute(s, doc, "", nil, g, nil, flags), out, CompareOpts{}) == "" {
+					diff = ""
+				}
+			}
+			if diff != "" {
+				c.Violation("c05-deep-unfaithful", map[string]interface{}{"backend": bk, "field": fname, "depth": depth, "max_resolve_depth": ggql.MaxResolveDepth,
+					"value": fmt.Sprintf("%s = %T(%v)", cv.name, cv.v, cv.v), "diag": diff})
+			}
+		}
+	}
+	ggql.MaxResolveDepth = 100
 	// hostile values inside generated nested documents
 	nested := c.N(800, 30000)
 	for i := 0; i < nested && !c.TooMany(); i++ {
